@@ -544,6 +544,8 @@ func (srv *server) sendWillLocked(msg *gmqtt.Message, clientID string) {
 	if req.Message == nil {
 		return
 	}
+	// the hook may have replaced the message
+	msg = req.Message
 	if msg.Retained {
 		// Will Retain: the will is published as a retained message [MQTT-3.1.2-17]
 		if len(msg.Payload) == 0 {
